@@ -42,6 +42,13 @@ HAND = [
     ("template T() { signal input x; signal output o; o <== V(1)(b <-- x >> 1, a <-- x); }", 2),
     ("template T() { signal input x; signal u <-- x * x * x, v <-- x >> 1; signal output o; o <== u + v; }", 2),
     ("template T() { signal input x; signal output u <-- x, v <-- x * x * x, w <== x; }", 2),
+    # several *constraints* that share one source range (seeded C08 m5: the records were identified by their location, so only the first one
+    # at a location was kept): the inputs of an anonymous call, the symbols of one declaration — the assigned signal is mentioned by the
+    # second one
+    ("template T() { signal input x; signal output o; signal t; t <-- x >> 1; o <== V(1)(x, t); }", 1),
+    ("template T() { signal input x; signal output o; signal t; t <-- x >> 1; o <== V(1)(b <== t, a <== x); }", 1),
+    ("template T() { signal input x; signal output o; signal t; t <-- x >> 1; o <== V(1)(a <== x, b <== t); }", 1),
+    ("template T() { signal input x; signal output o; signal h; h <-- x >> 1; signal d <== 2 * x, c <== h * (h - 1); o <== d + c; }", 1),
     # an index literal that is not smaller than the prime denotes the element of its residue (review of d5ed6fe)
     ("template T() { signal input a; signal output o[2]; o[0] <-- a \\ 2; o[%d] * 2 === a; }" % BN254, None),
     ("template T() { signal input a; signal output o[2]; o[1] <-- a \\ 2; o[%d] * 2 === a; o[0] <== a; }" % BN254, None),
